@@ -61,7 +61,8 @@ def main(argv=None):
     # 2. build
     axioms = {}
     if not args.skip_build:
-        modules = spec["modules"] + (["JPV.TablesCheck"] if spec.get("tables") else [])
+        # one module per Tie A obligation: a table that no longer matches breaks only the checks that list it
+        modules = spec["modules"] + ["JPV.Tables.T_" + t.rsplit(".", 1)[1] for t in spec.get("tables", [])]
         bok, errs, raw = fw.lake_build(modules + ["JPV.Driver"])
         if not bok:
             proof_problems.append("lake build failed: " + " | ".join(errs[:6]))
